@@ -101,7 +101,7 @@ PROPS = {
     "C21": {
         "title": "Atom identity is text identity",
         "v_units": [], "s_checks": ["atom_guards", "atom_ord"], "k_groups": ["atom_inline"],
-        "replay": None,
+        "replay": "atoms", "sweep": "atoms",
         "level": "proof",
     },
     "C55": {
@@ -132,6 +132,11 @@ WATCH = {
             ("src/machine/machine_state_impl.rs", "try_from_list"), ("src/machine/machine_state_impl.rs", "try_from_inner_list"), ("src/machine/machine_state_impl.rs", "try_from_partial_string")],
     "C13": [("src/heap_iter.rs", "from", r"impl < 'a > ParallelHeapIter < 'a >")],
     "C55": [("src/heap_print.rs", "requires_space"), ("src/heap_print.rs", "ambiguity_check"), ("src/heap_print.rs", "print_op"), ("src/heap_print.rs", "print_impromptu_atom")],
+    "C21": [("src/atom_table.rs", "build_with", r"impl AtomTable"), ("src/atom_table.rs", "lookup_str"), ("src/atom_table.rs", "new_inlined", r"impl Atom"),
+            ("src/atom_table.rs", "new_inlined", r"impl AtomCell"), ("src/atom_table.rs", "new_char_inlined"), ("src/atom_table.rs", "inlined_to_str"),
+            ("src/atom_table.rs", "inlined_str"), ("src/atom_table.rs", "as_str"), ("src/atom_table.rs", "as_ptr"), ("src/atom_table.rs", "is_inlined"), ("src/atom_table.rs", "is_static"),
+            ("src/atom_table.rs", "equivalent"), ("src/atom_table.rs", "hash", r"impl Hash for AtomHashByStr"),
+            ("build/static_string_indexing.rs", "static_string_index"), ("build/static_string_indexing.rs", "index_static_strings"), ("build/static_string_indexing.rs", "visit_macro")],
     "C03": [("src/arithmetic.rs", "compile_is"), ("src/codegen.rs", "compile_inlined"), ("src/codegen.rs", "compile_arith_expr"), ("src/codegen.rs", "compile_is_call"),
             ("src/debray_allocator.rs", "mark_non_var"), ("src/codegen.rs", "mark_non_callable")],
     "C33": [("src/machine/heap.rs", "sized_iter_to_heap_list"), ("src/machine/heap.rs", "allocate_pstr"), ("src/machine/heap.rs", "allocate_cstr"), ("src/machine/heap.rs", "write_with"),
